@@ -72,9 +72,8 @@ class HedIDValidator:
         # todo: If you have a way to know the schema should have 100% ids, you could check for that and flag missing
         new_id = tag_entry.attributes.get(attribute_name, "")
         old_id = None
-        tag_library = tag_entry.has_attribute(HedKey.InLibrary, return_value=True)
-        if not tag_library:
-            tag_library = ""
+        # The entry's own library: has_attribute() would join it with the values inherited from its parents
+        tag_library = tag_entry.attributes.get(HedKey.InLibrary, "")
 
         previous_schema = self._previous_schemas.get(tag_library)
         if previous_schema:
